@@ -53,6 +53,21 @@ func AddMeta(d *Design, r *lp.Rng, both bool) {
 			m.Meta = append(m.Meta, expr("method", i*5+j)...)
 		}
 	}
+	// extensions on the expression that IS a request body: an attribute used as the whole body (Body("note")) and a payload
+	// that is not an object. Chosen by a draw of this pass's own stream; the methods are added, nothing else changes.
+	if len(d.Services) > 0 && r.Intn(2) == 0 {
+		s := d.Services[0]
+		ext := func(k string) [][]string {
+			return [][]string{{"openapi:extension:x-body-" + k, `{"body":"` + k + `"}`}, {"swagger:extension:x-old-" + k, `[1]`}}
+		}
+		s.Methods = append(s.Methods,
+			&Method{Name: "meta_body_attr", Payload: &Att{Type: &Type{IsObject: true, Object: []*Field{
+				{Name: "note", Att: &Att{Type: &Type{Prim: "String"}, Meta: ext("attr")}},
+				{Name: "extra", Att: &Att{Type: &Type{Prim: "Int"}}}}}},
+				HTTP: &HTTPMap{Verb: "POST", Path: "/meta_body_attr", Params: []Mapped{{Attr: "extra"}}, Body: &BodySpec{Attr: "note"}}},
+			&Method{Name: "meta_body_array", Payload: &Att{Type: &Type{Array: &Att{Type: &Type{Prim: "String"}}}, Meta: ext("array")},
+				HTTP: &HTTPMap{Verb: "POST", Path: "/meta_body_array"}})
+	}
 	// one result attribute whose example has to be searched for: a format whose random values rarely match the pattern
 	// (the example generator retries; the output must still be a function of the design alone)
 	for _, s := range d.Services {
